@@ -95,7 +95,8 @@ def validate_traces(traces: list, workdir: str, tag: str, header=None, nproc=16,
         verdicts = list(ex.map(run, range(len(batches))))
     failures = [f for v in verdicts for f in v["failures"]]
     events = sum(v["events"] for v in verdicts)
-    return {"failures": failures, "events": events, "traces": sum(v["traces"] for v in verdicts),
+    skipped = sum(v.get("skipped", 0) for v in verdicts)
+    return {"failures": failures, "events": events, "skipped": skipped, "traces": sum(v["traces"] for v in verdicts),
             "expected_events": nev, "wall_s": time.time() - t0, "batches": len(batches)}
 
 
